@@ -259,6 +259,15 @@ def check(ctx):
         for s_ in stmts:
             g = [canon(c, neg=not p) for c, p in guard_of(prog, host, s_)]
             ctx.check(any("OS[uncertainty_handling_level]" in x for x in g), host, s_, "reserve only in noisy mode", "the reserve is not tied to the (possibly auto-detected) noisy mode held in optim_state['uncertainty_handling_level']", construct="reserve guard")
+        # the guard must see the *detected* noise level: nothing that can still raise the level may run after the reserve
+        writers = {fn for fn, t, v, s2_, k in key_stores(prog, "OS", "uncertainty_handling_level") if fn.cls is R.bads and fn.name != "__init__" and fn is not R.init_optim_state}
+        hcfg = cfg_of(host)
+        first = hcfg.node_of(stmts[0])
+        for c, tg in prog.calls_in(host):
+            late = [x for x in tg if isinstance(x, FunctionInfo) and (x in writers or writers & prog.reachable_from(x))]
+            cn = hcfg.node_of(c)
+            if late and first is not None and cn is not None and cn.id in hcfg.reachable(first.id):
+                ctx.fail(host, c, f"{late[0].short}() can still raise optim_state['uncertainty_handling_level'] (noise detected at start-up) after the reserve for the final samples has been decided: an auto-detected noisy run re-samples without a reserve and exceeds max_fun_evals", construct=f"reserve decided before {late[0].name}")
         oc = [c for c, tg in prog.calls_in(opt) if any(isinstance(x, FunctionInfo) and (x is host or host in prog.reachable_from(x)) for x in tg)]
         cfgo = cfg_of(opt)
         loops = [n for n in cfgo.nodes if n.kind == "test" and isinstance(n.stmt, ast.While)]
